@@ -7,6 +7,9 @@
 (* The catalog names two clocks: cat.now = the TSO key the driver wrote (the source's current time) and cat.local =  *)
 (* what the clock of the host showed at that moment (the driver shifts the catalog's time base so that this holds on   *)
 (* the real wall clock).  The contract measures "just below the source's current time" against cat.now only.           *)
+(* The catalog may be LARGE: cat.fill names blocks of live filler records (names outside the universe) the driver wrote *)
+(* into gaps of the store's key order; the contract does not mention them - the table must be the one of the small      *)
+(* catalog (same lookups) and hold nothing for the filler names (extra = {}).  e.fillobs is evidence for the machinery.  *)
 (* Known findings (env KF_<id>=1): a rejected event is accepted iff the logged table is exactly what the design with  *)
 (* the enabled deviations computes; "KF <plan> <id>" is printed for every deviation that is needed for that.          *)
 EXTENDS DroppedSnapshot, IOUtils
@@ -25,7 +28,8 @@ EvLk(e) == LET S == ToSet(e.lk)
 KFNames == {"C15_STALEDB", "C15_LIVEDB", "C15_KEYCLASH"}
 KFEnabled == {n \in KFNames : KFOn(n)}
 FlagsFor(S) == [stale |-> "C15_STALEDB" \in S, guard |-> "C15_LIVEDB" \notin S, safekeys |-> "C15_KEYCLASH" \notin S,
-                clamp |-> FALSE]                    \* no known finding about the clock: the TSO key is the current time
+                clamp |-> FALSE,                    \* no known finding about the clock: the TSO key is the current time
+                trunc |-> FALSE]                    \* nor about the size of the catalog: every record is listed
 DesignLk(cat, mode, S) == LkOf(cat, FlagsFor(S), Design(cat, mode, FlagsFor(S)))
 
 Ideal(e) == Contract(e.cat, e.mode, EvLk(e), ToSet(e.extra))
